@@ -28,9 +28,13 @@ def seipd_decrypt(cname):
         r.set('pkt', 'ct', ex.new_buf(st, CT))
         alg = E.VInt(algid, enum='pgpy.constants.SymmetricKeyAlgorithm')
 
+        KEY2, PT2 = z3.Const('ANOTHER_KEY', B), z3.Const('DECRYPTED_UNDER_ANOTHER_KEY', B)
+
         def dec(ex, st, o, a):
             st.ghost['dec_args'] = a
-            return [(st, ex.new_buf(st, PT))]
+            st.ghost['dec_calls'] = st.ghost.get('dec_calls', 0) + 1
+            # the external cipher: a different key gives a different (unrelated) octet string
+            return [(st, ex.new_buf(st, PT2 if z3.eq(z3.simplify(ex.seq(a[1], st)), KEY2) else PT))]
         ex.fhooks['pgpy.symenc._decrypt'] = dec
         n = z3.Length(PT)
         mdc_ok = z3.And(n >= 22, z3.Extract(PT, n - 22, 22) == cat(U(0xD3), U(0x14), E.HFN(SHA1ID_UP, z3.Extract(PT, 0, n - 20))))
@@ -49,6 +53,20 @@ def seipd_decrypt(cname):
             r.oblige(s, 'decrypts-the-packet-ciphertext-with-the-given-key-and-cipher-zero-iv/p%d' % pi,
                      z3.And(z3.BoolVal(a is not None and len(a) == 3), z3.And(ex.seq(a[0], s) == CT, ex.seq(a[1], s) == KEYB, ex.as_int(a[2]) == algid)
                             if a is not None and len(a) == 3 else z3.BoolVal(False)))
+            # no hidden state: after a successful decryption, a second call with ANOTHER key goes through the cipher and both checks again
+            n2 = z3.Length(PT2)
+            mdc2 = z3.And(n2 >= 22, z3.Extract(PT2, n2 - 22, 22) == cat(U(0xD3), U(0x14), E.HFN(SHA1ID_UP, z3.Extract(PT2, 0, n2 - 20))))
+            quick2 = z3.And(n2 >= bs + 2, z3.Extract(PT2, bs - 2, 2) == z3.Extract(PT2, bs, 2))
+            calls = s.ghost.get('dec_calls', 0)
+            for qi, (s2, v2) in enumerate(ex.call_func(E.VFunc(r.node, None, cls=r.dcls, self_val=me, mod=r.mod), [E.VBytes(KEY2), alg], {}, s, {'mod': r.mod})):
+                if isinstance(v2, E.Raise):
+                    r.oblige(s2, 'second-call-with-another-key:rejects-only-with-PGPDecryptionError-when-a-check-fails/p%d.%d' % (pi, qi),
+                             z3.And(z3.BoolVal(v2.exc.split(':')[0] == 'PGPDecryptionError'), z3.Not(z3.And(mdc2, quick2))), v2.where)
+                    continue
+                r.oblige(s2, 'second-call-with-another-key:accepted=>the-cipher-ran-again-and-both-checks-hold-for-ITS-output/p%d.%d' % (pi, qi),
+                         z3.And(z3.BoolVal(s2.ghost.get('dec_calls', 0) == calls + 1), mdc2, quick2))
+                r.oblige(s2, 'second-call-with-another-key:returns-the-octets-decrypted-under-that-key/p%d.%d' % (pi, qi),
+                         ex.seq(v2, s2) == z3.Extract(PT2, bs + 2, n2 - bs - 2))
         r.oblige(st, 'cover-accepting-path', z3.BoolVal(nret > 0))
         return r.result()
     return Scenario(label, SEIPD + '.decrypt', gen, props=('C04', 'C03'))
